@@ -569,6 +569,210 @@ theorem stop_lost_on_drop :
     ((Recv.new 4).run [.pollData .pending, .stopSending 9, .drop, .pollData .data]).1.stops = [] := by decide
 example : (stopSending (Recv.new 0) (2^62)).2 = .panic := by decide
 
+/-! ### what `stop_sending` owes the peer -/
+
+/-- The relation between the ownership machine and the caller's-side specification `StopSpec`. -/
+def StopRel (r : Recv) (s : StopSpec) : Prop :=
+  r.alive = s.alive ∧ s.inFlight = !r.here ∧
+  (s.due = [] → r.stops = [] ∧ r.pendingStop = s.asked.getLast? ∧ (r.here = true → s.asked = [])) ∧
+  (s.due ≠ [] → ∃ c ∈ s.due, r.stops.head? = some c)
+
+theorem head_append_of_head {l : List Nat} {c : Nat} (h : l.head? = some c) (t : List Nat) :
+    (l ++ t).head? = some c := by
+  cases l with
+  | nil => simp at h
+  | cons a l => simpa using h
+
+theorem stopRel_comeBack (r : Recv) (s : StopSpec) (h : StopRel r s) :
+    StopRel r.comeBack (s.onRead true) := by
+  obtain ⟨h1, h2, h3, h4⟩ := h
+  by_cases hd : s.due = []
+  · obtain ⟨g1, g2, g3⟩ := h3 hd
+    have hde : s.due.isEmpty = true := by simp [hd]
+    simp only [StopSpec.onRead, Bool.not_true, Bool.false_eq_true, ↓reduceIte, hde]
+    refine ⟨h1, by simp [Recv.comeBack], ?_, ?_⟩
+    · intro ha0
+      simp only at ha0
+      simp only [Recv.comeBack, g1, g2, ha0, List.nil_append]
+      simp
+    · intro hne
+      simp only at hne
+      simp only [Recv.comeBack, g1, g2, List.nil_append]
+      cases hl : s.asked.getLast? with
+      | none => simp [List.getLast?_eq_none_iff] at hl; exact absurd hl hne
+      | some c => exact ⟨c, List.mem_of_getLast? hl, by simp⟩
+  · have hde : s.due.isEmpty = false := by simp [hd]
+    simp only [StopSpec.onRead, Bool.not_true, Bool.false_eq_true, ↓reduceIte, hde]
+    refine ⟨h1, by simp [Recv.comeBack], fun h => absurd h hd, ?_⟩
+    intro _
+    obtain ⟨c, hc, hh⟩ := h4 hd
+    exact ⟨c, hc, by simp only [Recv.comeBack]; exact head_append_of_head hh _⟩
+
+theorem stopRel_step (r : Recv) (s : StopSpec) (op : RecvOp) (h : StopRel r s) :
+    StopRel (r.step op).1 (s.step op) := by
+  have h' := h
+  obtain ⟨h1, h2, h3, h4⟩ := h
+  unfold Recv.step StopSpec.step
+  by_cases ha : s.alive = true
+  · have hra : r.alive = true := by rw [h1, ha]
+    simp only [ha, hra, Bool.not_true, Bool.false_eq_true, ↓reduceIte]
+    cases op with
+    | pollData ev =>
+      cases ev with
+      | pending =>
+        simp only [pollData, ReadEv.completed, StopSpec.onRead, Bool.not_false, ↓reduceIte]
+        refine ⟨h1, by simp, ?_, h4⟩
+        intro hd
+        obtain ⟨g1, g2, _⟩ := h3 hd
+        exact ⟨g1, g2, fun hh => by simp at hh⟩
+      | data => exact stopRel_comeBack r s h'
+      | fin => exact stopRel_comeBack r s h'
+      | err e => exact stopRel_comeBack r s h'
+    | stopSending c =>
+      by_cases hc : c ≥ 2^62
+      · simp only [stopSending, StopSpec.onStop, if_pos hc]; exact h'
+      · simp only [stopSending, StopSpec.onStop, if_neg hc]
+        by_cases hd : s.due = []
+        · obtain ⟨g1, g2, g3⟩ := h3 hd
+          have hde : s.due.isEmpty = true := by simp [hd]
+          simp only [hde, Bool.not_true, Bool.false_eq_true, ↓reduceIte]
+          by_cases hh : r.here = true
+          · have hf : s.inFlight = false := by rw [h2, hh]; rfl
+            simp only [hh, hf, ↓reduceIte, Bool.false_eq_true]
+            refine ⟨h1, by simp, fun h => by simp at h, ?_⟩
+            intro _
+            exact ⟨c, by simp, by simp [g1]⟩
+          · have hh' : r.here = false := by simpa using hh
+            have hf : s.inFlight = true := by rw [h2, hh']; rfl
+            simp only [hh', hf, ↓reduceIte, Bool.false_eq_true]
+            refine ⟨h1, by simp, ?_, fun hne => absurd hd hne⟩
+            intro _
+            exact ⟨g1, by simp, fun h => by simp at h⟩
+        · have hde : s.due.isEmpty = false := by simp [hd]
+          simp only [hde, Bool.not_false, ↓reduceIte]
+          obtain ⟨c0, hc0, hh0⟩ := h4 hd
+          by_cases hh : r.here = true
+          · rw [if_pos hh]
+            exact ⟨h1, by simpa [hh] using h2, fun h => absurd h hd, fun _ => ⟨c0, hc0, head_append_of_head hh0 _⟩⟩
+          · rw [if_neg hh]
+            exact ⟨h1, h2, fun h => absurd h hd, fun _ => ⟨c0, hc0, hh0⟩⟩
+    | recvId => exact h'
+    | drop => exact ⟨by simp, h2, h3, h4⟩
+  · have hsa : s.alive = false := by simpa using ha
+    have hra : r.alive = false := by rw [h1, hsa]
+    simp only [hsa, hra, Bool.not_false, ↓reduceIte]
+    exact h'
+
+theorem stopRel_run (ops : List RecvOp) : ∀ r s, StopRel r s → StopRel (r.run ops).1 (s.run ops) := by
+  induction ops with
+  | nil => intro r s h; exact h
+  | cons op ops ih =>
+    intro r s h
+    simp only [Recv.run, StopSpec.run]
+    exact ih _ _ (stopRel_step r s op h)
+
+/-- every code the specification holds was handed in, as a valid varint, by a `stop_sending` call -/
+theorem stopSpec_codes (P : Nat → Prop) (ops : List RecvOp) : ∀ s : StopSpec,
+    (∀ c ∈ s.due ++ s.asked, P c) → (∀ c, c < 2^62 → RecvOp.stopSending c ∈ ops → P c) →
+    ∀ c ∈ (s.run ops).due ++ (s.run ops).asked, P c := by
+  induction ops with
+  | nil => intro s h _; exact h
+  | cons op ops ih =>
+    intro s h hp
+    simp only [StopSpec.run]
+    apply ih
+    · unfold StopSpec.step
+      by_cases ha : s.alive = true
+      · simp only [ha, Bool.not_true, Bool.false_eq_true, ↓reduceIte]
+        cases op with
+        | pollData ev =>
+          simp only [StopSpec.onRead]
+          by_cases hcpl : ev.completed = true
+          · simp only [hcpl, Bool.not_true, Bool.false_eq_true, ↓reduceIte]
+            by_cases hd : s.due.isEmpty = true
+            · simp only [hd, ↓reduceIte]
+              intro c hc; apply h c; simp at hc ⊢; right; exact hc
+            · simp only [hd, Bool.false_eq_true, ↓reduceIte]; exact h
+          · simp only [hcpl, Bool.not_false, ↓reduceIte]; exact h
+        | stopSending c0 =>
+          simp only [StopSpec.onStop]
+          by_cases hc : c0 ≥ 2^62
+          · rw [if_pos hc]; exact h
+          · rw [if_neg hc]
+            have hp0 : P c0 := hp c0 (by omega) (by simp)
+            by_cases hd : s.due.isEmpty = true
+            · simp only [hd, Bool.not_true, Bool.false_eq_true, ↓reduceIte]
+              by_cases hf : s.inFlight = true
+              · simp only [hf, ↓reduceIte]
+                intro c hcm
+                simp only [List.mem_append, List.mem_singleton] at hcm
+                rcases hcm with hcm | hcm | hcm
+                · exact h c (by simp [hcm])
+                · exact h c (by simp [hcm])
+                · rw [hcm]; exact hp0
+              · simp only [hf, Bool.false_eq_true, ↓reduceIte]
+                intro c hcm
+                simp only [List.mem_append, List.mem_singleton] at hcm
+                rcases hcm with hcm | hcm
+                · rw [hcm]; exact hp0
+                · exact h c (by simp [hcm])
+            · simp only [hd, Bool.not_false, ↓reduceIte]; exact h
+        | recvId => exact h
+        | drop => exact h
+      · simp only [ha, Bool.not_false, ↓reduceIte]; exact h
+    · intro c hc hm; exact hp c hc (by simp [hm])
+
+/-- **C17, the code of `stop_sending` reaches Quinn (reading R-17: the adapter's documented behaviour,
+    not the property's sentence about errors).** `StopSpec` is written from the caller's side: a
+    stop is *due* — owed to the peer now — once `stop_sending(c)` was called with no read in flight,
+    or once a read completed that was in flight when `stop_sending` was called. For EVERY sequence
+    of operations on a fresh receive stream (`poll_data` with any behaviour of the read future,
+    `stop_sending` with any code, `recv_id`, drop):
+    1. while nothing is due the adapter has issued no `stop` on the Quinn stream (nothing invented);
+    2. as soon as a stop is due, the FIRST `stop` the adapter issued on the Quinn stream — the one
+       Quinn honours and tells the peer's writer — carries one of the due codes, and it has been
+       issued by then: not "when the next read starts", not "never";
+    3. every due or remembered code was handed in by a `stop_sending` call and is a QUIC varint.
+    What is NOT owed (R-17, second observation of the unchanged adapter): a stop asked for during a
+    read that never completes — the second example below; the peer then learns Quinn's implicit
+    `STOP_SENDING(0)` when the stream is dropped (`stop_lost_on_drop`). -/
+theorem C17_stop_code_reaches_quinn (id : Nat) (ops : List RecvOp) :
+    let r := ((Recv.new id).run ops).1
+    let s := StopSpec.run {} ops
+    (s.due = [] → r.stops = []) ∧
+    (s.due ≠ [] → ∃ c ∈ s.due, r.stops.head? = some c) ∧
+    (∀ c ∈ s.due ++ s.asked, c < 2^62 ∧ RecvOp.stopSending c ∈ ops) := by
+  have h0 : StopRel (Recv.new id) {} := ⟨rfl, rfl, fun _ => ⟨rfl, rfl, fun _ => rfl⟩, fun h => absurd rfl h⟩
+  obtain ⟨_, _, h3, h4⟩ := stopRel_run ops _ _ h0
+  refine ⟨fun h => (h3 h).1, h4, ?_⟩
+  exact stopSpec_codes (fun c => c < 2^62 ∧ RecvOp.stopSending c ∈ ops) ops {} (by intro c hc; simp at hc)
+    (fun c hc hm => ⟨hc, hm⟩)
+
+-- non-vacuity: stop during a pending read, a further Pending poll, then the read completes: 9 is due and issued
+example : (StopSpec.run {} [.pollData .pending, .stopSending 9, .recvId, .pollData .pending, .pollData .data]).due = [9] ∧
+    ((Recv.new 4).run [.pollData .pending, .stopSending 9, .recvId, .pollData .pending, .pollData .data]).1.stops = [9] := by decide
+-- the read never completes: nothing is due, nothing was issued (the code is lost: observation (a) of R-17)
+example : (StopSpec.run {} [.pollData .pending, .stopSending 9, .drop]).due = [] ∧
+    ((Recv.new 4).run [.pollData .pending, .stopSending 9, .drop]).1.stops = [] := by decide
+-- on an idle stream the first of two stops is due (Quinn honours the first); of two stops during one
+-- pending read either is accepted by the specification (the adapter issues the last one)
+example : (StopSpec.run {} [.stopSending 1, .stopSending 2]).due = [1] := by decide
+example : (StopSpec.run {} [.pollData .pending, .stopSending 1, .stopSending 2, .pollData .fin]).due = [1, 2] := by decide
+/-- The seeded change "carry out the remembered stop when the NEXT read starts" (seeds2 C17, patch 1)
+    as a variant of `pollData`: the stop is issued at the top of `poll_data` if the stream is in
+    hand, completion only hands the stream back. After `Pending, stop_sending 9, data` the
+    specification owes the peer 9 and this variant has issued nothing (clause 2 of the theorem is
+    false for it); only a further read issues it. -/
+def pollDataLate (r : Recv) (ev : ReadEv) : Recv :=
+  let r := if r.here then { r with stops := r.stops ++ r.pendingStop.toList, pendingStop := none } else r
+  match ev with
+  | .pending => { r with here := false }
+  | _ => { r with here := true }
+example :
+    let r := pollDataLate (stopSending (pollDataLate (Recv.new 4) .pending) 9).1 .data
+    (StopSpec.run {} [.pollData .pending, .stopSending 9, .pollData .data]).due = [9] ∧
+    r.stops = [] ∧ r.pendingStop = some 9 ∧ (pollDataLate r .pending).stops = [9] := by decide
+
 /-! ## error tables -/
 
 /-- **C17, errors.** The four conditions of the property, each with its converse (nothing else
